@@ -26,7 +26,7 @@ def apply(F):
         ensures /*@C12*/ crate::verif_shim::GaView::gv(&r) == self.ser(),
                 self.ser().len() == crate::verif_shim::tnum::<Self::OutputSize>(),
 ''')
-    F.contract([r'pub trait Serializable\b'], r'fn size\b', ret='r', attrs=['#[verifier::external_body]'], discharged_by='kani:sizes_table', clauses='''
+    F.contract([r'pub trait Serializable\b'], r'fn size\b', ret='r', attrs=['#[verifier::external_body]'], discharged_by='kani:kem_ids_table, kani:aead_ids_and_sizes_table (size() of every key and tag type against the RFC 9180 numbers)', clauses='''
         ensures /*@C12*/ r == crate::verif_shim::tnum::<Self::OutputSize>(),
 ''')
     F.insert_in([], r'pub trait Deserializable\b', '''
